@@ -160,13 +160,6 @@ func (x *Exec) call(st *State, fr *Frame, in *ssa.Call) bool {
 	if b, ok := cc.Value.(*ssa.Builtin); ok {
 		switch b.Name() {
 		case "len":
-			if u, ok := cc.Args[0].(*ssa.UnOp); ok {
-				if p, ok := x.eval(st, fr, u.X).(Ptr); ok && p.Obj.Extern {
-					if _, fld := typeAtPath(p.Obj.T, p.Path); fld != nil {
-						st.events = append(st.events, Event{Kind: "lenread", Instr: in, Fn: fr.fn, Depth: len(st.frames) - 1, Field: fld, N: lenOf(st, args[0]), Loops: st.loops})
-					}
-				}
-			}
 			return set(Num{lenOf(st, args[0])})
 		case "cap":
 			return set(Num{psym("cap(" + args[0].avKey() + ")")})
